@@ -357,14 +357,14 @@ Definition run_spec (l obs : list tok) : list tok :=
   match parse_case l with
   | Some (CAgg k s c ops) =>
       match parse_points_agg k s obs with
-      | Some pts => spec_agg k s (eff_cfg (ops_of k s) c) ops pts
+      | Some pts => spec_agg k s (spec_cfg s c) ops pts
       | None => fail "obs:unparsable"
       end
   | Some (CRdr k s c temps ops) =>
       match parse_points_rdr k s obs with
       | Some cols =>
           check (forallb attrs_increasing cols) "series:duplicate_point" ++
-          flat_map (fun a => spec_series k s (eff_cfg (ops_of k s) c) temps (project a ops) (map (lookup_attr a) cols)) attrs
+          flat_map (fun a => spec_series k s (spec_cfg s c) temps (project a ops) (map (lookup_attr a) cols)) attrs
       | None => fail "obs:unparsable"
       end
   | None => bad_case
